@@ -19,6 +19,8 @@ type Case struct {
 	Recv   string   `json:"recv,omitempty"`   // meth: ptr | val | iface | mvalue (method value) | embedded | sptr (`&hp.Counter{…}` made by the script) | sptrmv (method value of it)
 	Seq    []bool   `json:"seq,omitempty"`    // ctx condloop: the call is executed once per element in ONE frame (a loop); the element is its first (bool) argument
 	CondOp string   `json:"condop,omitempty"` // ctx condloop: and | or | not | if | for | andassign | orassign | rhsand — how the bool result is consumed
+	Iters   [][]*Val `json:"iters,omitempty"`   // ctx defineloop: the arguments of each execution of `q0, q1 := callee(…)` (one frame, a loop)
+	Capture []string `json:"capture,omitempty"` // ctx defineloop: per result ptr | closure | none — what is kept of the declared variable after each execution
 	Rebind bool     `json:"rebind,omitempty"` // meth: the receiver variable is assigned another value after the method value / defer statement was evaluated, before the call runs
 	Args   []*Val   `json:"args,omitempty"`   // one per argument written at the call (variadic elements are separate unless Spread)
 	Forms  []string `json:"forms,omitempty"`  // per argument: var | lit | const (untyped constant / nil)
